@@ -781,27 +781,87 @@ def kernel_sig(repo, res):
     seq = re.findall(r"CPointer\(([^()]*(?:\([^()]*\))?)\)", mm.group(1)) if mm else []
     if seq != ["from_dtype(dtype)", "from_dtype(dtype)", "from_dtype(dtype)", "from_dtype(xdtype)", "types.intc", "types.uint8", "types.void"]:
         res.fail(key, f"numba kernel signature has pointer parameters {seq}", u.line(nsig.node), props=("C18", "C20"))
-    # jit cdef extraction regexes evaluated on the header text
-    j = repo.mod("ffcx.codegeneration.jit")
-    header = repo.header_text().replace("#ifndef __STDC_NO_COMPLEX__", "").replace("#endif // __STDC_NO_COMPLEX__", "")
-    found = 0
-    for n in ast.walk(j.tree):
-        if isinstance(n, ast.Call) and call_name(n) == "re.findall" and len(n.args) >= 2 and isinstance(n.args[0], ast.Constant):
-            pat = n.args[0].value
-            flags = re.DOTALL if "DOTALL" in ast.unparse(n) else 0
-            key = f"jit:cdef-regex:{pat[:40]}"
-            res.ob(key)
-            found += 1
-            hits = re.findall(pat, header, flags)
-            if len(hits) != 1:
-                res.fail(key, f"regex {pat!r} extracts {len(hits)} declarations from ufcx.h (expected 1): the cffi cdef is incomplete", "ffcx/codegeneration/jit.py", props=("C20", "C09"))
-            else:
-                # the extracted text must be the complete declaration
-                txt = hits[0]
-                if txt.count("(") != txt.count(")") or txt.count("{") != txt.count("}"):
-                    res.fail(key, f"regex {pat!r} extracts an unbalanced fragment of ufcx.h", "ffcx/codegeneration/jit.py", props=("C20", "C09"))
-    if found < 7:
-        raise AnalysisError("jit.py: fewer than 7 cdef extraction regexes found")
+    # what jit.py extracts from ufcx.h for the cffi cdef: the module's top level is interpreted on the header text (regular expressions are Python's own),
+    # and the declarations it leaves in UFC_HEADER_DECL / UFC_INTEGRAL_DECL / UFC_FORM_DECL / UFC_EXPRESSION_DECL - assembled as compile_forms and
+    # compile_expressions assemble them - are read back with the declaration reader used for ufcx.h itself: every kernel typedef and the three
+    # descriptor structs must be there, complete, once, and equal to the header's
+    from ..absint import Interp as _Ij, PyNative as _PNj, _PyCall as _PCj
+    from ..lnodes_model import load_classes as _lcj
+
+    class _HeaderFile(_PNj):
+        def __init__(self, text):
+            self.text = text
+
+        def __enter__(self):
+            return self
+
+        def __exit__(self, *a):
+            return False
+
+        def read(self):
+            return self.text
+
+        def readlines(self):
+            return self.text.splitlines(keepends=True)
+
+        def __iter__(self):
+            return iter(self.readlines())
+
+    def header_open(path, *a, **k):
+        if not str(path).endswith("ufcx.h"):
+            raise AnalysisError(f"jit.py opens `{path}` at import")
+        return _HeaderFile(repo.header_text())
+    itj = _Ij(repo, _lcj(repo), primary="ffcx.codegeneration.jit")
+    itj.overrides["open"] = _PCj(header_open)
+    itj.overrides["sys.platform"] = "linux"
+    itj.overrides["os.path.dirname"] = _PCj(lambda p_: "/pkg/ffcx/codegeneration")
+    itj.overrides["os.path.abspath"] = _PCj(lambda p_: "/pkg/ffcx/codegeneration/jit.py")
+    itj.overrides["__file__"] = "/pkg/ffcx/codegeneration/jit.py"
+    itj.overrides["logging.getLogger"] = _PCj(lambda *a: "logger")
+    for fn_ in ("findall", "sub", "search", "match", "finditer", "compile", "split", "escape"):
+        itj.overrides[f"re.{fn_}"] = _PCj(getattr(re, fn_))
+    itj.overrides["re.DOTALL"] = re.DOTALL
+    itj.overrides["re.S"] = re.S
+    itj.overrides["re.MULTILINE"] = re.MULTILINE
+    envj, problems = itj.module_env("ffcx.codegeneration.jit")
+    names = ("UFC_HEADER_DECL", "UFC_INTEGRAL_DECL", "UFC_FORM_DECL", "UFC_EXPRESSION_DECL")
+    missing = [n_ for n_ in names if not isinstance(envj.get(n_), str)]
+    if missing:
+        raise AnalysisError(f"jit.py: module-level {missing} not evaluable ({[p_ for p_ in problems if set(p_[0]) & set(missing)][:1]})")
+    for what, parts in (("compile_forms", ("UFC_INTEGRAL_DECL", "UFC_FORM_DECL")), ("compile_expressions", ("UFC_INTEGRAL_DECL", "UFC_FORM_DECL", "UFC_EXPRESSION_DECL"))):
+        key = f"jit:cdef:{what}"
+        res.ob(key)
+        try:
+            cdef = envj["UFC_HEADER_DECL"].format("float64") + "".join(envj[p_] for p_ in parts)
+        except (KeyError, IndexError, ValueError) as e_:
+            res.fail(key, f"the header part of the cdef cannot be instantiated with the scalar type name ({e_})", "ffcx/codegeneration/jit.py", props=("C20", "C09"))
+            continue
+        need_structs = ["ufcx_integral", "ufcx_form"] + (["ufcx_expression"] if what == "compile_expressions" else [])
+        need_typedefs = [f"ufcx_tabulate_tensor_{t_}" for t_ in ("float32", "float64", "complex64", "complex128")]
+        stripped = re.sub(r"/\*.*?\*/", "", cdef, flags=re.S)
+        stripped = re.sub(r"//[^\n]*", "", stripped)
+        for nm_ in need_typedefs:
+            hits = re.findall(rf"typedef\s+void\s*\(\s*{nm_}\s*\)\s*\((.*?)\)\s*;", stripped, re.S)
+            got = None
+            if len(hits) == 1:
+                got = []
+                for p_ in hits[0].split(","):
+                    p_ = re.sub(r"\s+", " ", p_).strip()
+                    mm_ = re.match(r"(.+?)\s*(\w+)$", p_)
+                    got.append((mm_.group(1).strip(), mm_.group(2)) if mm_ else (p_, "?"))
+            if got != h.typedefs.get(nm_):
+                res.fail(key, f"the cdef assembled for {what} declares the kernel type {nm_} {len(hits)} time(s) / as {got}; ufcx.h declares it once as "
+                         f"{h.typedefs.get(nm_)}: cffi would reject the module or call the kernels through another signature", "ffcx/codegeneration/jit.py",
+                         props=("C20", "C09"))
+                break
+        for st_ in need_structs:
+            hits = re.findall(rf"typedef\s+struct\s+{st_}\s*\{{(.*?)\}}\s*{st_}\s*;", stripped, re.S)
+            ref = re.findall(rf"typedef\s+struct\s+{st_}\s*\{{(.*?)\}}\s*{st_}\s*;", re.sub(r"//[^\n]*", "", re.sub(r"/\*.*?\*/", "", repo.header_text(), flags=re.S)), re.S)
+            norm_ = lambda t_: re.sub(r"\s+", " ", re.sub(r"#\s*(ifndef|endif)[^\n]*", "", t_)).strip()  # noqa: E731
+            if len(hits) != 1 or len(ref) != 1 or norm_(hits[0]) != norm_(ref[0]):
+                res.fail(key, f"the cdef assembled for {what} declares struct {st_} {len(hits)} time(s){'' if len(hits) != 1 else ' with other members than ufcx.h'}: the "
+                         "objects of the compiled module would be read through another layout", "ffcx/codegeneration/jit.py", props=("C20", "C09"))
+                break
     key = "jit:header-decl-markers"
     res.ob(key)
     if repo.header_text().count("<HEADER_DECL>") != 1 or repo.header_text().count("</HEADER_DECL>") != 1:
